@@ -253,7 +253,11 @@ impl TransactionManager {
             if *other_tx == tx_id {
                 continue;
             }
-            if other_info.state == TxState::Committed {
+            if other_info.state == TxState::Committed
+                && committed
+                    .get(other_tx)
+                    .is_some_and(|e| e.as_u64() > our_start_epoch.as_u64())
+            {
                 // Check if any of our writes conflict with their writes
                 for entity in &our_write_set {
                     if other_info.write_set.contains(entity) {
